@@ -143,7 +143,7 @@ def _num(kind):
         else:
             return False, None
         if isinstance(num, float) and math.isnan(num) and (lo is not None or hi is not None):
-            return UNKNOWN, None
+            return False, None  # NaN is neither >= the lower nor <= the upper bound
         if lo is not None and num < lo:
             return False, None
         if hi is not None and num > hi:
@@ -553,6 +553,8 @@ def default_of(node, env=None):
             return True, Hashed(d.secret)
         return UNKNOWN, None
     if fam == "list":
+        if isinstance(d, tuple):
+            d = list(d)  # a tuple is a list to a list field, in a declared default as in an assignment
         if isinstance(d, list):
             if node.get("item") is None:
                 return True, list(d)
